@@ -123,6 +123,8 @@ pub fn fixed_cfgs() -> Vec<(String, Vec<u16>)> {
             if dg { "yes" } else { "no" }
         );
         v.push((format!("{o}(defsrc a b c)\n(deflayer l0 (layer-while-held l1) (layer-while-held l2) x)\n(deflayer l1 _ (layer-switch l2) y)\n(deflayer l2 S-1 _ _)\n"), ks.clone()));
+        // a held layer over a switched base layer, transparent all the way down to the first layer
+        v.push((format!("{o}(defsrc a b c)\n(deflayer l0 x (layer-switch l1) XX)\n(deflayer l1 _ XX (layer-while-held l2))\n(deflayer l2 _ (layer-switch l0) XX)\n"), ks.clone()));
         v.push((format!("{o}(defsrc a b c)\n(deflayer l0 q (layer-while-held l1) (multi lsft (layer-while-held l2)))\n(deflayer l1 (multi _ w) XX (release-key lsft))\n(deflayer l2 use-defsrc (release-layer l1) C-q)\n"), ks.clone()));
     }
     v
